@@ -20,7 +20,7 @@ L2, for every value (no bound):
 * `query_roundtrip`, `query_property`.
 * `status_string_roundtrip_partial` / `_full` / `_full_fails` (finding K03), `status_named_roundtrip`, `mode_string_roundtrip`, `type_string_roundtrip`.
 * `opts_equals_refl/symm/trans`, `pin_equals_refl/symm/trans` — Equals is an equivalence on values held
-  behind distinct pointers; `equals_is_equivalence_full` (also for one pointer) and its refutation.
+  behind distinct pointers; `opts_equals_sound`, `pin_equals_sound` — it never overlooks a difference; `equals_is_equivalence_full` (also for one pointer) and its refutation.
 * `tagged_field_identity` — the generic prediction for json/msgpack is the identity on a field whose
   static type is decodable, away from rejected zero values and the two string-formed leaf types.
 -/
@@ -193,6 +193,27 @@ theorem pin_equals_trans (a b c : Pin) (h : pinEquals a b = true) (h' : pinEqual
   obtain ⟨⟨⟨⟨⟨h1, h2⟩, h3⟩, h4⟩, h5⟩, h6⟩ := h
   obtain ⟨⟨⟨⟨⟨g1, g2⟩, g3⟩, g4⟩, g5⟩, g6⟩ := h'
   exact ⟨⟨⟨⟨⟨h1.trans g1, h2.trans g2⟩, h3.trans g3⟩, h4.trans g4⟩, h5.trans g5⟩, opts_equals_trans _ _ _ h6 g6⟩
+
+/-- `PinOptions.Equals` never overlooks a difference: options it calls equal are equal up to the order of the
+    user allocations, the order and repeats of origins, the ignored `PinUpdate` and the empty metadata key -/
+theorem opts_equals_sound (a b : PinOptions) (ha : uniqueKeys a) (hb : uniqueKeys b) (h : optsEquals a b = true) :
+    optsSameLoose a b = true := by
+  have h' := h
+  simp only [optsEquals, Bool.and_eq_true, beq_iff_eq] at h
+  obtain ⟨⟨⟨⟨⟨⟨⟨⟨⟨⟨⟨⟨h1, h2⟩, h3⟩, h4⟩, h5⟩, _⟩, h7⟩, h8⟩, h9⟩, h10⟩, _⟩, h12⟩, h13⟩ := h
+  simp only [optsSameLoose, sameSet, Bool.and_eq_true, beq_iff_eq]
+  refine ⟨⟨⟨⟨⟨⟨⟨⟨h1, h2⟩, h4⟩, h3⟩, h5⟩, isPerm_of_sortS_eq h7⟩, h8⟩, metaNonEmpty_perm ha hb h9 (metaSub_symm hb h9 h10)⟩, ?_, ?_⟩
+  · exact h12
+  · exact h13
+
+/-- the same for `Pin.Equals` (allocations up to order) -/
+theorem pin_equals_sound (a b : Pin) (ha : uniqueKeys a.opts) (hb : uniqueKeys b.opts) (h : pinEquals a b = true) :
+    pinRest a b = true ∧ optsSameLoose a.opts b.opts = true := by
+  simp only [pinEquals, Bool.and_eq_true, beq_iff_eq] at h
+  obtain ⟨⟨⟨⟨⟨h1, h2⟩, h3⟩, h4⟩, h5⟩, h6⟩ := h
+  refine ⟨?_, opts_equals_sound _ _ ha hb h6⟩
+  simp only [pinRest, Bool.and_eq_true, beq_iff_eq]
+  exact ⟨⟨⟨⟨h1, h2⟩, h3⟩, h4⟩, isPerm_of_sortS_eq h5⟩
 
 /-- the full statement: `Equals` is reflexive whichever way the two arguments are held -/
 def equals_is_equivalence_full : Prop := ∀ (samePointer : Bool) (a : Pin), uniqueKeys a.opts → pinEqualsPtr samePointer a a = true
